@@ -10,10 +10,14 @@
 //     (amb counts queries that matched more than one j; '?' = matches none: not a subdivision point)
 //   * in R^1 with s1 = 0 the index is additionally decoded arithmetically, j = round(x * n / s2), and must
 //     agree with the table ('?' otherwise).
-// header:  motion space=<r1|rn|so2|se2|cmpd|cmpd2|dubins|dubinssym|rs|owen> validator=<default|discrete>
+// header:  motion space=<r1|rn|so2|se2|cmpd|cmpd2|dubins|dubinssym|rs|owen|vana|vanaowen> validator=<default|discrete>
 //                 frac=<f> lo=<f> hi=<f> dim=<d> f=<k,..> rho=<f>
 //          f lists the segment-count factor of every space node in pre-order (compound first, then its parts).
 // ops:     invalid idx <j>*        -> ok        (scripted predicate: these subdivision indices are invalid)
+//          invalid box <lo hi>*nreals -> ok     (geometric predicate, elementary spaces only: a state is INVALID iff every
+//                                               real lies in its [lo,hi]; cm lines then end with inv=<indices in the box>)
+//          gms <count> <endpoints> <alloc> <size> <st> <st> -> ret=<k> size=<n> slots=<S|G|j/c|u|0|?>,.. amb=<k>
+//                                               (getMotionStates into a vector of <size> sentinel states / nullptrs)
 //          hint <k> [<0|1>]        -> ok        (segment count [and Owen getPath outcome] for the model where it cannot compute distances)
 //          seg <st> <st>           -> n=<k> dist=<f> L=<f>
 //          cm2 <st> <st>           -> v=<0|1> n=<k> q=<j,..|-> cnt=<a>/<b>-><a'>/<b'> amb=<k>
@@ -34,6 +38,8 @@
 #include <ompl/base/spaces/DubinsStateSpace.h>
 #include <ompl/base/spaces/ReedsSheppStateSpace.h>
 #include <ompl/base/spaces/OwenStateSpace.h>
+#include <ompl/base/spaces/VanaStateSpace.h>
+#include <ompl/base/spaces/VanaOwenStateSpace.h>
 #include <ompl/util/Console.h>
 
 namespace ob = ompl::base;
@@ -80,10 +86,24 @@ public:
             }
         }
         rec.push_back(j);
+        if (boxMode && !listMode)
+            return !inBox(st);
         if (j < 0)
             return true;
         return invalid.count(j) == 0;
     }
+    // geometric predicate: a state is INVALID iff every real lies in its [lo, hi] interval
+    bool inBox(const ob::State *st) const
+    {
+        std::vector<double> r;
+        sp->copyToReals(r, st);
+        for (size_t i = 0; i < r.size() && i < box.size(); ++i)
+            if (!(box[i].first <= r[i] && r[i] <= box[i].second))
+                return false;
+        return true;
+    }
+    bool boxMode = false;
+    std::vector<std::pair<double, double>> box;
     ob::StateSpacePtr sp;
     std::set<long> invalid;
     mutable std::vector<long> rec;
@@ -231,6 +251,20 @@ int main()
         space = s;
         nodes = {space};
     }
+    else if (spn == "vana")
+    {
+        auto s = std::make_shared<ob::VanaStateSpace>(*rho);
+        s->setBounds(b3);
+        space = s;
+        nodes = {space};
+    }
+    else if (spn == "vanaowen")
+    {
+        auto s = std::make_shared<ob::VanaOwenStateSpace>(*rho);
+        s->setBounds(b3);
+        space = s;
+        nodes = {space};
+    }
     else
     {
         std::cout << "bad-header\n";
@@ -295,8 +329,12 @@ int main()
         space->copyFromReals(sentinel, r);
     }
     const double lvSentinel = 12345.678;
+    const bool hintedSpace = spn == "dubins" || spn == "dubinssym" || spn == "rs" || spn == "owen" || spn == "vana" ||
+                             spn == "vanaowen";
     auto mv = si->getMotionValidator();
 
+    std::vector<long> boxInv;
+    auto invstr = [&]() -> std::string { return svc->boxMode ? " inv=" + qstr(boxInv) : std::string(); };
     // fills svc's table for the pair (s1, s2)
     auto prepare = [&]() -> long {
         long n = (long)space->validSegmentCount(s1, s2);
@@ -312,6 +350,24 @@ int main()
                 space->interpolate(s1, s2, (double)j / (double)n, tmp);
                 svc->table[ser(space, tmp)].push_back(j);
             }
+        boxInv.clear();
+        if (svc->boxMode)
+        {
+            // truth table of the geometric predicate on the harness' own subdivision points
+            if (n == 0)
+            {
+                if (svc->inBox(s2))
+                    boxInv.push_back(0);
+            }
+            else
+                for (long j = 1; j <= n; ++j)
+                {
+                    if (j < n)
+                        space->interpolate(s1, s2, (double)j / (double)n, tmp);
+                    if (svc->inBox(j < n ? tmp : s2))
+                        boxInv.push_back(j);
+                }
+        }
         // the r1 arithmetic decode only makes sense for s1 = 0
         if (spn == "r1")
         {
@@ -351,7 +407,109 @@ int main()
                 continue;
             }
             svc->invalid = inv;
+            svc->boxMode = false;
             std::cout << "ok\n";
+        }
+        else if (op == "invalid" && t.size() == 2 + 2 * (size_t)nreals && t[1] == "box" && !hintedSpace)
+        {
+            std::vector<std::pair<double, double>> bx;
+            bool ok = true;
+            for (size_t i = 0; i < nreals; ++i)
+            {
+                auto lo_ = vp::parseBits(t[2 + 2 * i]), hi_ = vp::parseBits(t[3 + 2 * i]);
+                if (!lo_ || !hi_)
+                {
+                    ok = false;
+                    break;
+                }
+                bx.emplace_back(*lo_, *hi_);
+            }
+            if (!ok)
+            {
+                std::cout << "bad-op\n";
+                continue;
+            }
+            svc->box = bx;
+            svc->boxMode = true;
+            std::cout << "ok\n";
+        }
+        else if (op == "gms" && t.size() >= 5)
+        {
+            auto cnt_ = vp::parseNat(t[1]), sz_ = vp::parseNat(t[4]);
+            size_t i = 5;
+            if (!cnt_ || !sz_ || (t[2] != "0" && t[2] != "1") || (t[3] != "0" && t[3] != "1") || *cnt_ >= 4294967296ull ||
+                *sz_ > 100000 || !parseState(t, i, s1) || !parseState(t, i, s2) || i != t.size())
+            {
+                std::cout << "bad-op\n";
+                continue;
+            }
+            unsigned count = (unsigned)*cnt_;
+            bool endpoints = t[2] == "1", alloc = t[3] == "1";
+            size_t size = *sz_;
+            std::vector<ob::State *> v;
+            v.reserve(size);
+            std::vector<ob::State *> mine;
+            for (size_t k = 0; k < size; ++k)
+            {
+                if (alloc)
+                    v.push_back(nullptr);
+                else
+                {
+                    ob::State *x = si->allocState();
+                    space->copyState(x, sentinel);
+                    v.push_back(x);
+                    mine.push_back(x);
+                }
+            }
+            unsigned ret = si->getMotionStates(s1, s2, v, count, endpoints, alloc);
+            // labels: the harness' own table of what each slot may legitimately hold
+            unsigned c = count + 1;   // wraps like the code under test
+            std::map<std::string, std::vector<std::string>> lab;
+            lab[ser(space, s1)].push_back("S");
+            lab[ser(space, s2)].push_back("G");
+            if (c >= 2 && c <= 200000)
+                for (unsigned j = 1; j < c; ++j)
+                {
+                    space->interpolate(s1, s2, (double)j / (double)c, tmp);
+                    lab[ser(space, tmp)].push_back(std::to_string(j) + "/" + std::to_string(c));
+                }
+            std::string sent = ser(space, sentinel);
+            std::string slots;
+            unsigned amb = 0;
+            for (size_t k = 0; k < v.size(); ++k)
+            {
+                std::string l;
+                if (v[k] == nullptr)
+                    l = "0";
+                else
+                {
+                    std::string b = ser(space, v[k]);
+                    if (b == sent)
+                        l = "u";
+                    else
+                    {
+                        auto it = lab.find(b);
+                        if (it == lab.end())
+                            l = "?";
+                        else
+                        {
+                            l = it->second.front();
+                            if (it->second.size() > 1)
+                                ++amb;
+                        }
+                    }
+                }
+                slots += (k ? "," : "") + l;
+            }
+            std::cout << "ret=" << ret << " size=" << v.size() << " slots=" << (slots.empty() ? "-" : slots) << " amb=" << amb
+                      << "\n";
+            std::set<ob::State *> freed;
+            for (auto *x : v)
+                if (x && freed.insert(x).second)
+                    si->freeState(x);
+            for (auto *x : mine)
+                if (freed.insert(x).second)
+                    si->freeState(x);
         }
         else if (op == "hint" && ((t.size() == 2 && vp::parseNat(t[1])) ||
                                   (t.size() == 3 && vp::parseNat(t[1]) && (t[2] == "0" || t[2] == "1"))))
@@ -370,6 +528,10 @@ int main()
                           << " L=" << vp::bits(space->getLongestValidSegmentLength());
                 if (spn == "owen")
                     std::cout << " path=" << (space->as<ob::OwenStateSpace>()->getPath(s1, s2) ? 1 : 0);
+                if (spn == "vana")
+                    std::cout << " path=" << (space->as<ob::VanaStateSpace>()->getPath(s1, s2) ? 1 : 0);
+                if (spn == "vanaowen")
+                    std::cout << " path=" << (space->as<ob::VanaOwenStateSpace>()->getPath(s1, s2) ? 1 : 0);
                 std::cout << "\n";
                 continue;
             }
@@ -379,7 +541,7 @@ int main()
             {
                 bool v = si->checkMotion(s1, s2);
                 std::cout << "v=" << (v ? 1 : 0) << " n=" << n << " q=" << qstr(svc->rec) << " " << cnt(a0, b0)
-                          << " amb=" << svc->amb << "\n";
+                          << " amb=" << svc->amb << invstr() << "\n";
             }
             else
             {
@@ -403,7 +565,7 @@ int main()
                     lvs = ser(space, tmp) == ser(space, lvState) ? "eq" : "ne";
                 }
                 std::cout << "v=" << (v ? 1 : 0) << " n=" << n << " lv=" << lv << " lvs=" << lvs << " q=" << qstr(svc->rec)
-                          << " " << cnt(a0, b0) << " amb=" << svc->amb << "\n";
+                          << " " << cnt(a0, b0) << " amb=" << svc->amb << invstr() << "\n";
             }
         }
         else if (op == "list" && t.size() >= 3 && vp::parseNat(t[1]) && vp::parseNat(t[2]))
